@@ -15,6 +15,7 @@ CONSTANTS
   Boot <- BootABC
   CrashSet <- OnlyC
   StopSet <- OnlyB
-  Sync = FALSE
+  Sync = TRUE
+  TrackAge = FALSE
 INVARIANTS TypeOK
 PROPERTIES EventuallyAgreed HashCatchesUp
